@@ -78,7 +78,9 @@ func (s *SchedCheck) NumCases(tier string) int {
 	}
 	return s.Quick
 }
-func (s *SchedCheck) Rule() string          { return s.RuleText }
+func (s *SchedCheck) Rule() string {
+	return strings.Replace(s.RuleText, "profile %q", fmt.Sprintf("profile %q", s.Profile), 1)
+}
 func (s *SchedCheck) Assumptions() []string { return s.Assume }
 func (s *SchedCheck) CaseTimeout() time.Duration {
 	if s.TimeoutCase > 0 {
